@@ -145,9 +145,28 @@ func mbAction(site string) string {
 	return strings.TrimPrefix(site, "mb.")
 }
 
+// siteOf: an environment thread that has been created but not stepped yet is parked before the call
+// itself ("start"): whatever the call does before its first yield site — in the code as written,
+// nothing — runs as part of its first step, not at creation time. It is shown at its first site.
+func (e *mbEngine) siteOf(t *sched.Thread) string {
+	if td, ok := t.Data.(*mbThread); ok && t.Site == "start" && td.role == "env" {
+		switch td.kind {
+		case "enqU":
+			return "mb.enq.pushu"
+		case "enqS":
+			return "mb.enq.pushs"
+		case "pause":
+			return "mb.pause.store"
+		case "resume":
+			return "mb.resume.casp"
+		}
+	}
+	return t.Site
+}
+
 func (e *mbEngine) pcOf(t *sched.Thread) string {
 	td := t.Data.(*mbThread)
-	site := t.Site
+	site := e.siteOf(t)
 	if td.role == "consumer" && td.inHandler {
 		switch site {
 		case "mb.enq.pushu", "mb.enq.pushs", "mb.pause.store", "mb.resume.casp", "h.end":
@@ -222,7 +241,7 @@ func (e *mbEngine) pcOf(t *sched.Thread) string {
 func (e *mbEngine) live() []*sched.Thread {
 	var out []*sched.Thread
 	for _, t := range e.s.Threads {
-		if !t.Done && t.Site != "exit" && t.Site != "mb.proc.exit" && t.Site != "start" {
+		if !t.Done && t.Site != "exit" && t.Site != "mb.proc.exit" && e.siteOf(t) != "start" {
 			out = append(out, t)
 		}
 	}
@@ -311,7 +330,20 @@ func (e *mbEngine) Exec(line string) (obs string, viol string) {
 			return "stuck", ""
 		}
 		t.Data = &mbThread{role: "env", kind: kind}
-		if !e.s.Step(t) { // from "start" to the first yield inside the call: no shared effect
+		// the thread stays parked before the call: see siteOf
+		return e.show(), ""
+	case "enter":
+		// enter <tid>: the thread enters its call and runs to the first yield site inside it. In the code as
+		// written that touches no shared state (the model does not move); a change that reads shared state
+		// there makes this a scheduling point that matters.
+		if len(tk) != 2 || e.s == nil {
+			return "bad-op", ""
+		}
+		tid, _ := strconv.Atoi(tk[1])
+		if tid < 0 || tid >= len(e.s.Threads) || e.s.Threads[tid].Done || e.s.Threads[tid].Site != "start" {
+			return "no-such-thread " + tk[1], ""
+		}
+		if !e.s.Step(e.s.Threads[tid]) {
 			return "stuck", ""
 		}
 		return e.show(), ""
@@ -324,6 +356,9 @@ func (e *mbEngine) Exec(line string) (obs string, viol string) {
 			return "no-such-thread " + tk[1], ""
 		}
 		t := e.s.Threads[tid]
+		if t.Site == "start" {
+			return fmt.Sprintf("bad-replay: thread %d has not entered its call yet (enter %d)", tid, tid), ""
+		}
 		if a := mbAction(t.Site); a != tk[2] {
 			return fmt.Sprintf("bad-replay: thread %d is at %s (%s), not %s", tid, t.Site, a, tk[2]), ""
 		}
@@ -512,9 +547,12 @@ func (e *mbEngine) runCase(c *Ctx, fixed bool, sc mbScenario, choose func(step i
 		}
 		cur = t
 		from := e.pcOf(t)
-		line := fmt.Sprintf("step %d %s", t.ID, mbAction(t.Site))
+		line := fmt.Sprintf("step %d %s", t.ID, mbAction(e.siteOf(t)))
 		if e.s.IsSpawn(t.Site) {
 			line += fmt.Sprintf(" %d", len(e.s.Threads))
+		}
+		if t.Site == "start" {
+			line = fmt.Sprintf("enter %d", t.ID)
 		}
 		c.Do(line)
 		to := "exit"
